@@ -1188,6 +1188,8 @@ func checkC19(c *Check) {
 	c19NonBlocking(c)
 	c19UsablePure(c)
 	c19Configured(c)
+	c19CloseClosesSocket(c, "R11")
+	c19StampIsOwnEnd(c, "R12")
 }
 
 // R8: the pool never waits on a bucket. A bucket channel is bounded (the idle-count limit, possibly 0); a send that
